@@ -1,4 +1,4 @@
 """Manifest texts now live next to each property's check configuration (tools/props.d/Cxx.py: TEXT)."""
 from props import TEXT
-HOOK_COMMITS = ['e98ba37']
+HOOK_COMMITS = ['e98ba37', '36d25dd']
 NOT_APPLICABLE = {}
